@@ -223,6 +223,7 @@ def run(prop, cfg, tier, seed, replay):
         "conformance_mismatches": len(conf.get("mismatches", [])),
         "model_scripts": cfg.get("_model_oracle", {}),
         "timing_retries": (batches[0].get("meta", {}) or {}).get("timing_retries", 0) if batches else 0,
+        "max_process_stall_ms": round(max([r.get("max_stall_ms", 0) or 0 for r in res] or [0]), 1),
         "known_findings_matched": sorted(matched), "fixed_findings": [f["commit"] + " " + f["text"] for f in fixed],
         "extract": {k: ex.get(k) for k in ("changed", "anchors_lost", "error") if k in ex},
         "timing": {"lake_build_s": pr.get("build_s"), "scenarios_s": batches[0]["wall_s"] if batches else 0},
